@@ -1,0 +1,21 @@
+//go:build verif && linux
+
+package libaudit
+
+import "syscall"
+
+// VerifSerialize exposes serialize to the verification harness.
+func VerifSerialize(msg syscall.NetlinkMessage) []byte { return serialize(msg) }
+
+// VerifParseNetlinkAuditMessage exposes parseNetlinkAuditMessage to the
+// verification harness.
+func VerifParseNetlinkAuditMessage(buf []byte) ([]syscall.NetlinkMessage, error) {
+	return parseNetlinkAuditMessage(buf)
+}
+
+// VerifStatusLayout reports the in-memory layout of AuditStatus that
+// toWireFormat/FromWireFormat copy to and from the wire.
+func VerifStatusLayout() (size, minSize int) { return sizeofAuditStatus, MinSizeofAuditStatus }
+
+// VerifStatusToWire exposes AuditStatus.toWireFormat.
+func VerifStatusToWire(s AuditStatus) []byte { return append([]byte(nil), s.toWireFormat()...) }
